@@ -372,7 +372,7 @@ func TestVerifC11Child(t *testing.T) {
 						b.Reset()
 					case "chk":
 						for _, f := range th.targets {
-							out = append(out, c11Call(f, 3))
+							out = append(out, c11Call(f, 3), c11Call(f, 1)) // a default-hitting and a table-hitting argument
 						}
 					}
 					return ""
